@@ -985,6 +985,11 @@ def np_maximum(it, a, b):
 
 
 def np_clip(it, a, lo, hi):
+    # an infinite bound does not bind (REAL mode: every value is a finite real)
+    if isinstance(lo, float) and lo == float("-inf"):
+        lo = None
+    if isinstance(hi, float) and hi == float("inf"):
+        hi = None
     r = a if lo is None else np_maximum(it, a, lo)
     return r if hi is None else np_minimum(it, r, hi)
 
